@@ -22,19 +22,29 @@ def relation(a, proof):
     return "right" if proof["pw"] == a["pw"] else "wrong"
 
 
+def cls(a, proof):
+    return "%s/%s/%s/%s" % (a["plugin"], "pw" if a["pw"] != "none" else "nopw", a["locked"], relation(a, proof))
+
+
 def signature(m):
     att, got = m["att"], m["got"]
     o = got["o"]
     if o == "dropped" and "caught panic" in got.get("note", ""):
         o = "dropped(panic)"
     p = att["proof"]
-    proof = "password" if p["k"] == "password" else "%s:%s len=%d" % (p["k"], p["base"], p["n"])
-    cand = ",".join(sorted({"%s/%s/%s/%s" % (a["plugin"], "pw" if a["pw"] != "none" else "nopw", a["locked"], relation(a, p)) for a in m["cand"]})) or "none"
+    proof = "password" if p["k"] == "password" else "%s:%s" % (p["k"], p["base"])      # lengths: in the detail
+    cand = ",".join(sorted({cls(a, p) for a in m["cand"]})) or "none"
     exp = ",".join(sorted({x["o"] for x in m["allowed"]}))
-    if o == "accept" and "accept" in exp:
+    if o == "accept":
+        # as which account the session runs (CURRENT_USER()); the raw client does not ask
         cu = got.get("cu", "")
-        how = "client-address" if cu.endswith("@127.0.0.1") and not any(x.get("cu") == cu for x in m["allowed"]) else "other"
-        return "C40|accept|current-user=%s|tls=%s|cand=%s" % (how, att["tls"], cand)
+        run_as = [cls(a, p) for a in m["cand"] if a["user"] + "@" + a["host"] == cu]
+        who = run_as[0] if run_as else "raw" if p["k"] != "password" else "client-address" if cu.endswith("@127.0.0.1") else "other"
+        # an account whose host is the literal 127.0.0.1 has the same name as "user@client address";
+        # the latter reading is taken when a password-less sha2 candidate could have been logged in over TLS
+        if cu == att["user"] + "@127.0.0.1" and att["tls"] and any(a["plugin"] == "sha2" and a["pw"] == "none" and relation(a, p) == "right" for a in m["cand"]):
+            who = "client-address"
+        return "C40|accept|as=%s|expected=%s|proof=%s|tls=%s|cand=%s" % (who, exp, proof, att["tls"], cand)
     return "C40|%s|expected=%s|proof=%s|tls=%s|cand=%s" % (o, exp, proof, att["tls"], cand)
 
 
@@ -95,7 +105,7 @@ def check(tier):
         for s in sets:
             s.sort(key=lambda a: (a["user"], a["host"]))
         sets.sort(key=lambda s: json.dumps(s, sort_keys=True))
-        nsets = 110 if quick else 1200
+        nsets = 80 if quick else 200
         singles = [s for s in sets if len(s) == 1]
         pairs = [s for s in sets if len(s) == 2]
         pick = lib.sample(singles, nsets // 3, rnd) + lib.sample(pairs, nsets - nsets // 3, rnd)
@@ -140,6 +150,19 @@ def check(tier):
         missing = [f["id"] for f in v.findings if f["id"] not in v.known]
         if missing:
             lib.log("[C40] note: known finding(s) %s did not show this run (fixed?)" % missing)
+        forged = None
+        if not quick:
+            # binding demonstrated: a cleanly judged accept turned into a reject (and vice versa) must be rejected
+            bad_ids = {m["id"] for m in mms}
+            good = [e for e in ends if e["id"] not in bad_ids]
+            fa = next(e for e in good if e["out"]["o"] == "accept")
+            fr = next(e for e in good if e["out"]["o"] == "reject")
+            f1 = json.loads(json.dumps(fa)); f1["id"] = 1; f1["out"] = {"o": "reject", "cu": "", "code": 1045}
+            f2 = json.loads(json.dumps(fr)); f2["id"] = 2; f2["out"] = {"o": "accept", "cu": "alice@localhost", "code": 0}
+            fmm, _, _ = validate([f1, f2], sc, "forged")
+            if {m["id"] for m in fmm} != {1, 2}:
+                raise lib.Inconclusive("the trace specification accepted a forged outcome")
+            forged = {"accept_to_reject_rejected": True, "reject_to_accept_rejected": True}
         r = mc.result()
         lib.tlc_ok(r, "Auth/" + mc_cfg)
         if not quick and r.coverage_zero():
@@ -162,7 +185,7 @@ def check(tier):
             "sampled_account_sets": len(pick),
             "by_outcome": rep["extra"]["by_outcome"],
             "server_crashes": rep["extra"]["server_crashes"], "server_panics_logged": rep["extra"]["server_panics_logged"],
-            "mismatch_signatures": {s: len(ms) for s, ms in by_sig.items()},
+            "mismatch_signatures": {s: len(ms) for s, ms in by_sig.items()}, "forged_trace_selftest": forged,
         }, time.time() - t0, violations=len(v.violations),
             assumptions=["password knowledge abstracted to label equality; the scramble/hash arithmetic is the real code's",
                          "client address 127.0.0.1 only; host patterns are varied on the account side",
